@@ -643,9 +643,18 @@ class Scenario(object):
                 if 'C02' in self.active:
                     hb = {p: v['hold'] for p, v in self.canon(before)['ports'].items()}
                     ha = {p: v['hold'] for p, v in self.canon(after)['ports'].items() if p in hb}
-                    if hb != ha and op[0] not in ('update', 'exec', 'pf_mark', 'pf_txn'):
+                    if hb != ha and op[0] not in ('update', 'exec'):
                         self.viol('C02', 'holdings-changed-by-refused-request/%s' % op[0], 'request %r was refused with %s and the '
                                   'holdings report changed: %s' % (op, outcome, diff_snap(self.canon(before), self.canon(after))[:3]))
+                if 'C03' in self.active and op[0] in ('pf_txn', 'pf_mark'):
+                    # a refused fill is not a fill: the P&L figures describe the fills made, before and after the refusal
+                    pb = {p: tuple(float(x).hex() for x in v['pnl']) for p, v in before['ports'].items()}
+                    pa = {p: tuple(float(x).hex() for x in v['pnl']) for p, v in after['ports'].items() if p in pb}
+                    if pb != pa:
+                        self.viol('C03', 'pnl-changed-by-refused-request/%s' % op[0], 'request %r was refused with %s and the '
+                                  '(total, realised, unrealised) P&L went from %s to %s' % (
+                                      op, outcome, {p: before['ports'][p]['pnl'] for p in pb if pb[p] != pa.get(p)},
+                                      {p: after['ports'][p]['pnl'] for p in pa if pb[p] != pa.get(p)}))
                 raise Stop()   # partial update; only C15 judges the rest
             return
 
@@ -1648,6 +1657,7 @@ def make_cfg(rng):
         fee = ['pct', rate(), rate()]
     return {
         'start': rng.choice(STARTS),
+        'strict_warnings': rng.random() < 0.12,     # the application escalates warnings to errors (python -W error)
         'loud': rng.random() < 0.15,        # event printing left on (the library default), output discarded
         'currency_added_later': rng.random() < 0.1,
         'base_currency': rng.choice(['USD', 'USD', 'USD', 'GBP', 'EUR']),
@@ -1822,14 +1832,15 @@ class Gen(object):
         kinds = ['acct_sub_neg', 'acct_wd_neg', 'acct_wd_over', 'p_sub_neg', 'p_sub_unknown', 'p_sub_over',
                  'p_wd_neg', 'p_wd_unknown', 'p_wd_over', 'create_dup', 'get_cash_unknown', 'get_mv_unknown',
                  'get_eq_unknown', 'get_dict_unknown', 'badccy', 'new_broker', 'order_unknown']
+        # direct portfolio requests with whole numbers given as ints (valid), and a fill without a positive price (refused)
+        kinds += ['pf_mark_int', 'pf_mark_int', 'pf_txn_int', 'pf_txn_int', 'pf_txn_badprice', 'pf_txn_badprice']
         if self.faults == 'benign+back':
             kinds += ['update_back', 'update_back', 'update_back', 'update_back', 'update_back_ok', 'update_back_ok']
         if self.faults == 'all':
             kinds += ['update_back', 'update_back', 'update_back', 'update_back_ok', 'update_back_pos', 'neg_mark', 'neg_mark', 'pf_sub_back', 'pf_sub_neg',
                       'pf_wd_back', 'pf_wd_neg', 'pf_wd_over', 'pf_txn_back', 'pf_mark_neg', 'pf_mark_back',
                       'pf_txn_behind_pos', 'pf_txn_behind_pos', 'pf_mark_behind_pos', 'pf_mark_repeat', 'pf_mark_ahead',
-                      'pf_mark_ahead', 'pf_sub_ahead', 'pf_sub_ahead', 'pf_mark_int', 'pf_mark_int', 'pf_txn_int', 'pf_txn_int',
-                      'pf_txn_badprice', 'pf_txn_badprice']
+                      'pf_mark_ahead', 'pf_sub_ahead', 'pf_sub_ahead']
         k = rng.choice(kinds)
         amt = rand_amount(rng) + 0.01
         over = lambda x: float(max(x, 0.0)) * rng.choice([1.0, 1.0, 1.0000001, 1.5, 10.0]) + rng.choice([0.001, 0.004, 0.0098, 0.01, 1.0, 1e6])  # noqa
@@ -2093,7 +2104,7 @@ def run_case(case, acc, prop, active=None):
         # replay of a symmetry pair: same price / quantity / rates
         return replay_symmetry(case, acc)
     cls = PortfolioScenario if case.get('level') == 'portfolio' else Scenario
-    with core.loud(bool(case['cfg'].get('loud'))):
+    with core.loud(bool(case['cfg'].get('loud')), strict=bool(case['cfg'].get('strict_warnings'))):
         sc = cls(case['cfg'], active or {prop}, acc)
         v = run_ops(sc, case['ops'], acc, prop)
     if v is not None and v.prop == prop:
@@ -2105,7 +2116,7 @@ def run_case(case, acc, prop, active=None):
 def generate_and_run(rng, acc, prop, faults, nops, active=None):
     """Generate one broker-level case in lock-step and run the monitors on it."""
     cfg = make_cfg(rng)
-    loud = core.loud(bool(cfg.get('loud')))
+    loud = core.loud(bool(cfg.get('loud')), strict=bool(cfg.get('strict_warnings')))
     loud.__enter__()
     sc = Scenario(cfg, active or {prop}, acc)
     gen = Gen(rng, sc, faults)
@@ -2131,6 +2142,8 @@ def generate_and_run(rng, acc, prop, faults, nops, active=None):
     acc.count('ops_executed', len(ops))
     if cfg.get('loud'):
         acc.count('cases_with_event_printing_on')
+    if cfg.get('strict_warnings'):
+        acc.count('cases_with_warnings_escalated_to_errors')
     finish_case(sc, acc, prop, ops)
     if len(ops) <= 40:
         acc.sample({'cfg': cfg, 'ops': ops})
